@@ -26,12 +26,14 @@ fn space_for(tier: Tier) -> (Space, usize) {
             // deeper nesting with single insertions only
             s.ast_range("NESTX", 4, 5, 8, 1);
             s.tok("TX", &gen::T_XCLS, 4, 64).tok("TXE", &gen::T_XESC, 3, 16);
+            s.list("flag strings", 1, 1);
             (s, 2)
         }
         Tier::Thorough => {
             s.ast("K", 4, 16).ast("CL", 3, 16).ast("G", 4, 16).tok("T0", &gen::T_CORE, 3, 16).tok("T", &gen::T_FULL, 2, 16).ast("NESTX", 4, 4);
             s.ast_range("NESTX", 5, 6, 8, 1);
             s.tok("TX", &gen::T_XCLS, 5, 64).tok("TXE", &gen::T_XESC, 4, 16);
+            s.list("flag strings", 1, 1);
             (s, 2)
         }
     }
@@ -81,6 +83,11 @@ impl Check for C14 {
         let (sp, k) = space_for(ctx.tier);
         let (seg, lo, hi) = sp.locate(chunk);
         let scope_name = space::seg_scope_name(seg);
+        if let space::SegKind::List { .. } = seg.kind {
+            let n = super::common::flag_effect(out, "C14", 'x');
+            out.sample(J::obj(vec![("flag_strings_probed", J::i(n as usize))]));
+            return;
+        }
         let k = if seg.param > 0 { seg.param } else { k };
         space::for_each_text(seg, lo, hi, &mut |_i, text| {
             let chars: Vec<char> = text.chars().collect();
@@ -145,6 +152,8 @@ impl Check for C14 {
                     if xsd && gs.len() > 1 {
                         continue;
                     }
+                    // the same text without the flag first: nothing of it may carry over
+                    let _ = imp::compile(&with_s, "", xsd);
                     let a = observe(&with_s, "x", &stripped, xsd);
                     let b = base_cache.entry((stripped.clone(), xsd)).or_insert_with(|| observe(&stripped, "", &stripped, xsd)).clone();
                     if a.iter().any(|x| x.contains("CRASH") || x.contains("PANIC") || x.contains("NONTERMINATION")) || b.iter().any(|x| x.contains("CRASH") || x.contains("PANIC") || x.contains("NONTERMINATION")) {
